@@ -31,7 +31,7 @@ def check_program(prog, root, seeds, rng_orders):
         os.makedirs(sub)
         pkg = "vpk"                      # the same package name everywhere (names are part of the version)
         vprogs.write_package(prog, sub, pkg, order)
-        acts = [["import"]] + [["versions", [q]] for q in qorder]
+        acts = [["import", ["other-first", "other-last", None][i % 3]]] + [["versions", [q]] for q in qorder]
         runs.append((sub, seed, acts, order, qorder))
 
     def go(r):
@@ -96,16 +96,22 @@ def main(chk, replay=None):
     nprog = 10 if quick else 120
     nseeds = 4 if quick else 12
     reported = 0
-    for _ in range(nprog):
-        prog = vprogs.gen_prog(rng, nm=rng.randint(2, 4), hidden_rate=0.0)
+    import c01
+    corpus = [c[0] for c in c01.corpus()]
+    for pi in range(nprog + len(corpus)):
+        prog = corpus[pi] if pi < len(corpus) else vprogs.gen_prog(rng, nm=rng.randint(2, 4), hidden_rate=0.0)
         seeds = [0, 1, 2, 3, 7, 11, 13, 42, 99, 123, 1000, 31337][:nseeds]
         ms = [n for n in prog["order"] if n[0] == "m"]
         runs = []
-        for s_ in seeds:
+        for si, s_ in enumerate(seeds):
             order = list(prog["order"])
             rng.shuffle(order)
             q = list(ms)
             rng.shuffle(q)
+            if si in (0, 2):     # every memento function (callees first) before the plain helpers and variables it
+                #                  (transitively) uses; nothing registered afterwards; callers queried first
+                order = [n for n in prog["order"] if n[0] == "m"] + [n for n in reversed(prog["order"]) if n[0] != "m"]
+                q = list(reversed(ms))
             runs.append((s_, order, q))
         root = tempfile.mkdtemp(prefix="c03_", dir=chk.tmpdir())
         fails, table = check_program(prog, root, seeds, runs)
